@@ -143,6 +143,11 @@ impl Number {
         if exp.value.abs() >= Numeric::from(1 << 31) {
             return Err("Exponent is too large".to_string());
         }
+        if let Numeric::Float(f) = exp.value {
+            if f.is_nan() {
+                return Err("Exponent is not a number".to_string());
+            }
+        }
         let (num, den) = exp.value.to_rational();
         let one = BigInt::one();
         if den == one {
@@ -173,6 +178,11 @@ impl Number {
         if exp.value.abs() >= Numeric::from(1 << 31) {
             return Err("Right-hand to << is too large".to_string());
         }
+        if let Numeric::Float(f) = exp.value {
+            if f.is_nan() {
+                return Err("Right-hand to << is not a number".to_string());
+            }
+        }
         let (num, den) = exp.value.to_rational();
         if den != BigInt::one() {
             return Err("Right-hand to << must be an integer".to_string());
@@ -196,6 +206,11 @@ impl Number {
         }
         if exp.value.abs() >= Numeric::from(1 << 31) {
             return Err("Right-hand to >> is too large".to_string());
+        }
+        if let Numeric::Float(f) = exp.value {
+            if f.is_nan() {
+                return Err("Right-hand to >> is not a number".to_string());
+            }
         }
         let (num, den) = exp.value.to_rational();
         if den != BigInt::one() {
